@@ -198,9 +198,12 @@ def targets(tier='quick'):
     T = _t0(tier)
     RP = props_registry()
     for M in (1, 2, 3):
-        T.append(Target('param/rows[M=%d]' % M, 'system.ParameterizedSystem.get_propagators', scen_props(M, 'props'), post_props, RP, PROP, invoke=invoke_props))
-        T.append(Target('param/rows-derivs-user[M=%d]' % M, 'system.ParameterizedSystem.get_propagator_derivatives', scen_props(M, 'derivs-user'), post_props, RP, PROP, invoke=invoke_props))
-        T.append(Target('param/rows-derivs-numeric[M=%d]' % M, 'system.ParameterizedSystem.get_propagator_derivatives', scen_props(M, 'derivs-num'), post_props, RP, PROP, invoke=invoke_props))
+        T.append(Target('param/rows[M=%d]' % M, 'system.ParameterizedSystem.get_propagators', scen_props(M, 'props'), post_props, RP, PROP, invoke=invoke_props,
+                        replay=lambda ob: {'func': 'gradient_vs_finite_difference', 'inputs': {'obligation': ob['name']}}))
+        T.append(Target('param/rows-derivs-user[M=%d]' % M, 'system.ParameterizedSystem.get_propagator_derivatives', scen_props(M, 'derivs-user'), post_props, RP, PROP, invoke=invoke_props,
+                        replay=lambda ob: {'func': 'gradient_user_derivatives', 'inputs': {'obligation': ob['name']}}))
+        T.append(Target('param/rows-derivs-numeric[M=%d]' % M, 'system.ParameterizedSystem.get_propagator_derivatives', scen_props(M, 'derivs-num'), post_props, RP, PROP, invoke=invoke_props,
+                        replay=lambda ob: {'func': 'gradient_vs_finite_difference', 'inputs': {'obligation': ob['name']}}))
         RC = chain_registry(M)
         T.append(Target('chain/indexing[M=%d]' % M, 'gradient._chain_rule', scen_chain(M), post_chain(M, RC), RC, PROP))
     return T
